@@ -23,8 +23,8 @@ class C03 : public Check
 public:
     const char *id() { return "C03"; }
     const char *opName(int k) { return apiOpName(k); }
-    int quickRuns() { return 6000; }
-    int quickSeconds() { return 60; }
+    int quickRuns() { return 9000; }
+    int quickSeconds() { return 90; }
     int thoroughSeconds() { return 900; }
     int cpuBudgetSec() { return 20; }
     const char *rule()
